@@ -466,12 +466,14 @@ def apply_op(solver, rec, op, k, case_tag):
         res["pop"] = [_vec(p) for p in solver.population]
     elif o == "Step":
         kw = dict(callback=CbFn(tag)) if op.get("cb", False) else {}
+        kw.update(_de_kwds(op))
         msg = solver.Step(**kw)
         res["inputs"] = [step_inputs(solver, rec)]
     elif o == "Solve":
         rec.solve_inputs = []
         try:
             kw = dict(callback=CbFn(tag)) if op.get("cb", False) else {}
+            kw.update(_de_kwds(op))
             solver.Solve(**kw)
         finally:
             res["inputs"] = rec.solve_inputs
@@ -484,6 +486,19 @@ def apply_op(solver, rec, op, k, case_tag):
     else:
         raise ValueError(o)
     return res, msg
+
+
+def _de_kwds(op):
+    """DE settings passed as (sticky) keywords of Step/Solve: strategy by callable, CrossProbability, ScalingFactor"""
+    k = op.get("kw") or {}
+    out = {}
+    if "strategy" in k:
+        import mystic.strategy as st
+        out["strategy"] = getattr(st, k["strategy"])
+    for name in ("CrossProbability", "ScalingFactor"):
+        if name in k:
+            out[name] = k[name]
+    return out
 
 
 def run_script(case):
@@ -505,7 +520,7 @@ def _run_script(case):
     try:
         solver = build_solver(kind, case["ndim"], case.get("npop", 4))
         solver._verif_tag = tag
-        if kind in ("DE", "DE2"):
+        if kind in ("DE", "DE2") and not case.get("de_kw"):
             solver.strategy = case.get("strategy", "Best1Bin")
             solver.probability = case.get("cross", 0.9)
             solver.scale = case.get("scale", 0.8)
